@@ -24,7 +24,8 @@ RULE = ("AGENT cases: a population that changes between timesteps and DURING tim
         "text_on_disk + ''.join(records) == everything collected so far, and text_on_disk == the first "
         "floor(c/(write_count+1))*(write_count+1) collections. Non-trivial: agent - population changes during a timestep with "
         ">= 1 agent yielding nothing and a non-default window; file - >= 2 flush cycles with write_count >= 1 and an empty "
-        "collection inside a cycle. Distinct = digest of the case.")
+        "collection inside a cycle. Distinct = digest of the case."
+        " Added in rounds 19-24: the composite function may be a callable, empty (falsy) container; the mutating system uses the 'everybody but me' idiom on get_agents(), shuffle() and random picks.")
 ASSUMPTIONS = ["agent ids never equal 'timestep' or a composite key", "file collector: filemode 'a' and clear_records_on_write=True "
                "(the defaults the property names)"]
 
